@@ -7,7 +7,7 @@ import os
 from hypothesis import strategies as st
 
 from vf import pins
-from vf.core import HarnessError, HypPart, Oracle, VERIF_DIR
+from vf.core import HarnessError, HypPart, Oracle, VERIF_DIR, case_digest, reorder
 from vf.ref import flashenc as F
 
 ID = "C13"
@@ -358,6 +358,7 @@ def run_otfad_cfg(case, o: Oracle, work: str) -> None:
             o.label("scramble")
         else:
             scr = None
+        cfg = reorder(cfg, int(case_digest(case)[:8], 16))  # mapping keys in an order picked with the case
         check_config(cfg, OtfadNxp.get_validation_schemas(case["family"]), search_paths=[wdir])
         otfad = OtfadNxp.load_from_config(cfg, wdir, search_paths=[wdir])
         first = None
@@ -622,6 +623,7 @@ def run_iee_cfg(case, o: Oracle, work: str) -> None:
         from spsdk.utils.database import DatabaseManager, get_db
         from spsdk.utils.schema_validator import check_config
 
+        cfg = reorder(cfg, int(case_digest(case)[:8], 16))  # mapping keys in an order picked with the case
         check_config(cfg, IeeNxp.get_validation_schemas(case["family"]), search_paths=[wdir])
         iee = IeeNxp.load_from_config(cfg, wdir, search_paths=[wdir])
         first = None
@@ -715,6 +717,7 @@ def run_bee(case, o: Oracle, work: str) -> None:
                                                 "protected_region": [{"start_address": hex(s), "length": hex(end - s), "protected_level": lvl} for s, end, lvl in per_engine[i]]}})
             cfg = {"output_folder": os.path.join(wdir, "out"), "input_binary": p, "engine_selection": sel, "engine_key_selection": "random",
                    "base_address": hex(base), "bee_engine": engines_cfg}
+            cfg = reorder(cfg, int(case_digest(case)[:8], 16))  # mapping keys in an order picked with the case
             check_config(cfg, BeeNxp.get_validation_schemas(), search_paths=[wdir])
             bee = BeeNxp.load_from_config(cfg, search_paths=[wdir])
     if bee is None:
